@@ -224,7 +224,7 @@ def compare_copy(src, dst, route):
     """Every observable field the two kinds have in common must be equal (parents/indices re-targeted)."""
     a, b = snapshot(src), snapshot(dst)
     skip = {"cls"}
-    if route in ("concat", "or"):
+    if route in ("concat", "or", "or_e1", "or_e2", "concat_e1", "concat_e2"):
         n, nb = len(a["atoms"]), len(a.get("bonds", []))
         b = _sub(b, n, nb)
         skip |= {"name", "charge", "mult", "attrib"}
@@ -311,6 +311,11 @@ class MolHeapAdapter:
                     dst = getattr(ml, to).concatenate(src, make(to))
                 elif r == "or":
                     dst = src | make(self.kinds[i])           # operator form of concatenate: always a Structure
+                elif r in ("or_e1", "or_e2", "concat_e1", "concat_e2"):
+                    # the other operand has no atoms: the product must still be a new, independent object
+                    empty = getattr(ml, self.kinds[i])()
+                    ops = (src, empty) if r.endswith("1") else (empty, src)
+                    dst = (ops[0] | ops[1]) if r.startswith("or") else getattr(ml, to).concatenate(*ops)
                 elif r == "join":
                     # an end atom of either fragment (one bond, not one of the first two atoms) serves as attachment point
                     dst = getattr(ml, to).join(src, make(to), join_ap(src), 2)
